@@ -82,6 +82,14 @@ def compare(out, p, obs, source):
     n = 0
     for i, (want, got) in enumerate(zip(p["exp"], obs)):
         n += 1
+        if p["ops"][i]["op"] == "CacheWrap":
+            # which wrappers refuse CacheWrap() (gaskv, tracekv panic) is transcribed in the specification but is not
+            # part of C16's statement: a difference is recorded, never a violation
+            if want["pan"] != got["pan"]:
+                out.notes.setdefault("nonconformance_cachewrap", []).append(
+                    {"program": p["id"], "stack": stack_name(p["stack"]), "expected": want["pan"], "observed": got["pan"]})
+                return n
+            continue
         if isinstance(got.get("pan"), str) and got["pan"].startswith("other:") and want["pan"] == "":
             report(out, p, i, "pan", want["pan"], got["pan"], source)
             return n
@@ -267,6 +275,10 @@ def validate_random(out, d, seed, n_prog, n_ops, n_variants):
         want = json.loads(json.loads('"%s"' % m.group(3)))
         got = json.loads(json.loads('"%s"' % m.group(4)))
         if p["id"] in seen:
+            continue
+        if p["ops"][j]["op"] == "CacheWrap":
+            out.notes.setdefault("nonconformance_cachewrap", []).append(
+                {"program": p["id"], "stack": stack_name(p["stack"]), "field": field, "expected": want, "observed": got})
             continue
         if field.endswith("_after_panic"):
             out.notes.setdefault("nonconformance_after_panic", [])
